@@ -7,3 +7,5 @@ import DiplomatModel.Props.C04
 #print axioms DiplomatModel.Props.C04.borrowMap_keys
 #print axioms DiplomatModel.Props.C04.nested_field_exact
 #print axioms DiplomatModel.Props.C04.nested_getter_exact
+#print axioms DiplomatModel.Props.C04.arena_on_every_edge_array
+#print axioms DiplomatModel.Props.C04.arena_stays_on_edge_array
